@@ -125,9 +125,59 @@ def job_sliceoff(item):
     S.absorb_engine(eng)
     return S
 
+WS_EXPRS = [' abs(a)', 'abs(a) ', '  a | abs(@)  ', '\n  a |\n  abs(@)\n', '\tnosuch(a)', ' a[::0] ', ' length(a, b)\n', '\n\nsort_by(a, &b)', ' é | abs(a) ']
+def job_compiled(item):
+    """errors of searches made through Runtime::compile + Expression::search (the public path): the error carries the ORIGINAL expression text and
+    its offset is the opening parenthesis of the failing call / lies in the slice, in that text"""
+    expr, deadline = item
+    prog = PROG; eng = Engine(prog); eng.deadline = deadline; S = Summary(); XP.init_decls(prog)
+    ex0 = PathExec(eng, []); rtc = XP.mk_runtime(ex0)
+    spec = SY.DocSpec(depth=1, A=1, keys=('a', 'b'), strs=('a',), nums=[1])
+    import re as _re
+    def body(ex):
+        c = ex.call('Runtime::compile', [Ptr(rtc), Ptr(Cell(rstr(expr)), 'ref')])
+        if c.variant != 'Ok': return ('compile-err', c.fields[0].v)
+        doc = SY.sym_variable(ex, spec); ex.doc = doc
+        return ('searched', ex.call('Expression::search', [Ptr(Cell(c.fields[0].v)), SY.rc(doc)]))
+    def on_path(ex, r):
+        S['paths'] += 1; S['outcomes'][r[0]] += 1
+        if r[0] != 'ok':
+            if r[0] == 'unsupported': S.inconclusive(f'compiled {expr!r}: ' + XP.short_unsupported(r[1]))
+            return
+        kind, out = r[1]
+        e = out if kind == 'compile-err' else (out.fields[0].v if out.variant == 'Err' else None)
+        if e is None: return
+        S['vacuity']['public-path error reached'] = True
+        etext = XP.err_field(e, 'expression').concrete(); off = XP.err_field(e, 'offset').concrete()
+        rk = XP.reason_kind(e)
+        bad = None
+        if etext != expr: bad = f'the error carries the expression {etext!r}, not the text that was compiled'
+        elif off is None or off > len(expr.encode()): bad = f'offset {off} lies outside the expression'
+        elif rk in ('unknown-function', 'not-enough-arguments', 'too-many-arguments', 'invalid-type', 'invalid-return-type'):
+            b = expr.encode()
+            if off >= len(b) or b[off:off + 1] != b'(': bad = f'runtime error offset {off} is not the opening parenthesis of a call'
+        elif rk == 'invalid-slice':
+            m_ = _re.search(r'\[[^\[\]]*:0\]', expr)
+            if not (m_.start() <= len(expr[:0].encode()) + off <= m_.end()): bad = f'invalid-slice offset {off} outside the slice'
+        ln, col = XP.err_field(e, 'line').concrete(), XP.err_field(e, 'column').concrete()
+        if bad is None and off is not None:
+            wl, wc = py_linecol(expr, off)
+            if (ln, col) != (wl, wc): bad = f'line/column ({ln},{col}) are not those of offset {off} ({wl},{wc})'
+        if bad:
+            d = None
+            if hasattr(ex, 'doc'):
+                acc = []; SY.lazy_null_constraints(ex.doc, acc)
+                sat, m = eng.check(ex.pc + acc)
+                if sat: d = SY.tagged(ex, ex.doc, m)
+            S.cand('c12:public-path-error', f'{expr!r}: {bad}', {'expr': expr, 'doc': d}, {'op': 'search', 'expr': expr, 'doc': d}, expected={'expression': expr})
+    n, rest = eng.explore(body, on_path, max_paths=2000)
+    S.absorb_engine(eng)
+    return S
+
 def task(item):
     if item[0] == 'errnew': return job_errnew(item[1:])
     if item[0] == 'sliceoff': return job_sliceoff(item[1:])
+    if item[0] == 'compiled': return job_compiled(item[1:])
     if item[0] == 'parse':
         from . import parsejob as PJ, grammar as GR
         _, first, n, dl = item
@@ -158,6 +208,16 @@ def confirm(c, nd, nr):
     if c['key'] in ('c12:runtime-error-as-parse', 'c12:nonfinite-result-as-parse'): return d.get('kind') == 'err' and d.get('reason_kind') == 'parse', obs
     if c['key'] == 'c12:compile-error-not-parse': return d.get('kind') == 'compile-err' and d.get('reason_kind') != 'parse', obs
     if c['key'] == 'c12:error-expression': return d.get('kind') in ('err', 'compile-err') and d.get('expression') != c['request']['expr'], obs
+    if c['key'] == 'c12:public-path-error':
+        def bad(o):
+            if o.get('kind') not in ('err', 'compile-err'): return False
+            e = c['request']['expr']
+            if o.get('expression') != e: return True
+            l_, c_ = py_linecol(e, o.get('offset', 0))
+            if (o.get('line'), o.get('column')) != (l_, c_): return True
+            if o.get('reason_kind') in ('unknown-function', 'not-enough-arguments', 'too-many-arguments', 'invalid-type', 'invalid-return-type'): return e.encode()[o['offset']:o['offset'] + 1] != b'('
+            return False
+        return any(bad(o) for o in obs.values()), obs
     if c['key'] == 'c12:slice-error-offset':
         lo, hi = c['expected']['offset_within']
         return d.get('kind') == 'err' and d.get('reason_kind') == 'invalid-slice' and not (lo <= d.get('offset', -1) <= hi), obs
@@ -216,6 +276,7 @@ def run(run):
     jobs += [('call', name, [FJ.ANY] * n, run.deadline, 'table') for name in ('abs', 'contains', 'sort_by', 'nosuch', 'merge') for n in (0, 1, 2, 3)]
     jobs += [('call', 'sum', [[[1e308, 1e308], [1e308, -1e308], [1, 2]]], run.deadline, 'values'), ('call', 'avg', [[[1e308, 1e308, 1e308], [1]]], run.deadline, 'values')]
     jobs += [('sliceoff', e, run.deadline) for e in SLICE_EXPRS]
+    jobs += [('compiled', e, run.deadline) for e in WS_EXPRS]
     run.bounds['compile errors'] = f'every rejecting path of Parser::parse on <= {N} symbolic tokens and of Lexer::tokenize on <= 2 symbolic code points (+ templates): reason is Parse, offset is the start of a token / the offending lexeme, the expression text is carried'
     run.bounds['runtime errors'] = 'built-in calls (by-functions with nested calls inside expression references, arity/type/unknown-function errors for a sample of functions x 11 type representatives): Runtime kind, expression text, offset = opening parenthesis of the failing call'
     run.bounds['rendering'] = 'Display for JmespathError executed from its MIR on every JmespathError::new path: reason, (line l, column c), expression, caret line'
@@ -223,7 +284,7 @@ def run(run):
     D = ('digit',)
     import time as _t
     run.deadline = max(run.deadline, _t.time() + (60 if run.tier == 'quick' else 900))      # each phase gets its own slice of the budget
-    LJ.run_sharded(run, PROG, [[None], [None, None], ['a', None, None], ["'", None, None], ['"', None, '"'], ['`', None, '`'], ['é', None, None], ['\n', None, None], ['a', '\n', 'é', None]], 'mirsym: lexer error positions on symbolic code points', keyprefix='c12x')
+    LJ.run_sharded(run, PROG, [[None], [None, None], ['a', None, None], ["'", None, None], ['"', None, '"'], ['`', None, '`'], ['é', None, None], ['\n', None, None], ['a', '\n', 'é', None], ['-'] + [D] * 11, ['a', '[', '-'] + [D] * 11, ['é', '-', None], ['a', '=', None], ['a', '"', None], ['é', "'", None]], 'mirsym: lexer error positions on symbolic code points', keyprefix='c12x')
     run.cands = [c for c in run.cands if c['key'].startswith('c12:') or c['key'] in ('error-coordinates', 'errnew-panic')]
     res = K.run_harnesses(run, ['c12_line_column_small', 'c12_line_column'], timeout=420 if run.tier == 'quick' else 1800)
     kani_candidates(run, res)
